@@ -65,7 +65,7 @@ def _space(tier):
             full.append(((None, dk, ck), A.make_param(None, dk, dv, ck, cv)))
     small = A.sigma_int() + [((None, "int", "t_number"), A.make_param(None, "int", 5, "t_number", "number of items")),
                              (("str", "absent", "t_whether"), A.make_param("str", "absent", None, "t_whether", "whether to do it"))]
-    yield from A.ir_space(full, small, 2 if tier == "quick" else 3, returns_1=A.RETURNS[:3], returns_n=A.RETURNS[:2])
+    yield from A.ir_space(full, small, 2 if tier == "quick" else 3, returns_1=A.RETURNS[:3] + A.RETURNS[4:], returns_n=A.RETURNS[:2])
 
 
 def cases(tier, seed):
